@@ -24,7 +24,9 @@ CLAIM = {
             "for all spec lists and every sort function returning a sorted permutation: (name,path) set preserved, only "
             "comment-less exact duplicates dropped (multiset statement), each run sorted by path and free of removable "
             "duplicates, spec records move whole (identity, name, path, comment stay together; only positions are "
-            "reassigned, in order), independence of the sort's tie order. Tied to the code by a differential run of the "
+            "reassigned, in order), independence of the sort's tie order; for the model WITH the token.File line table: the "
+            "same for every line table whenever SortImports returns, and when every spec is on its own line and the closing "
+            "parenthesis on a later one SortImports never panics and equals the layout-free result. Tied to the code by a differential run of the "
             "extracted model against ast.SortImports and against the groups of re-parsed format.Source output on "
             "exhaustive small blocks and seeded structured/malformed files.",
     "note": "sort.Slice is a parameter (any sorted permutation). The executed model carries the token.File line table "
